@@ -74,6 +74,9 @@ CATALOGUE = {
         atoms=[[(1, 2, 4, 6)], [(3, 1, 7, 4)], [(6, 3, 9, 8)]],
         gp=True,
     ),
+    # a far component, a near component and a bar that crosses only the near one (operands with
+    # several curves of which some are box-separated from the other operand)
+    "U3far": dict(N=11, atoms=[[(1, 1, 4, 5)], [(6, 6, 9, 9)], [(7, 3, 8, 10)]], gp=True),
     # a ring (rectangle with a hole) and a small rectangle inside the ring
     "U3dot": dict(N=10, atoms=[[(1, 1, 9, 9)], [(2, 2, 5, 5)], [(6, 6, 8, 8)]], gp=True),
     # four nested rectangles: rings inside the holes of rings (nesting depth 4)
